@@ -353,5 +353,58 @@ def _is_iter_none_exit(b, x, tgt, next_bi):
     return False
 
 
+def r13_7(ctx):
+    """a chunk covered by a gap ack block stays in the sent queue (marked `acked`) until the cumulative ack
+    passes it. The retransmit phase of transmit() sends every record that has `needs_retransmit`, without
+    looking at `acked`; what keeps an acknowledged chunk off the wire is that marking it acked also empties
+    its payload (or clears needs_retransmit). So: every `acked = true` is followed, before the sweep moves on,
+    by one of those two - or the retransmit phase itself tests `acked`."""
+    r = RuleResult("R13.7", "K4", "a gap-acked chunk cannot be retransmitted")
+    tb = ctx.body(S + "transmit::{closure#0}")
+    guarded = False
+    for sb in range(len(tb.blocks)):
+        if tb.blocks[sb]["t"]["k"] == "switch":
+            term, outs = tb.switch_info(sb)
+            if mir.has(term, lambda x: x[0] == "field" and x[2] == "acked"):
+                guarded = True
+    fn = "transports::sctp::apply_sack_to_sent_queue"
+    b = ctx.body(fn)
+    r.scope += [fn, tb.name]
+    ws = [(bi, si) for bi, si, st in core.field_writes(b, lambda f: f == "acked")
+          if si is not None and b.term_rvalue(st["rv"])[:2] == ("const", 1)]
+    r.need("acked = true sites in apply_sack_to_sent_queue", len(ws), 1)
+    neutral = []
+    for bi, si, st in core.field_writes(b, lambda f: f in ("payload", "needs_retransmit")):
+        if si is None:
+            # call result stored into the field: payload = Bytes::new()
+            if core._last_field(st["dst"]) == "payload" and (mir.callee_path(st["f"]) or "").endswith("Bytes::new"):
+                neutral.append((bi, 10 ** 6))
+            continue
+        f = core._last_field(st["p"])
+        v = b.term_rvalue(st["rv"])
+        if (f == "needs_retransmit" and v[:2] == ("const", 0)) or (f == "payload" and v[0] == "call" and v[1].endswith("Bytes::new")):
+            neutral.append((bi, si))
+    hdrs = {h for h, blocks in b.loops()}
+    rets = {i for i, blk in enumerate(b.blocks) if blk["t"]["k"] == "ret"}
+    for wbi, wsi in ws:
+        if guarded:
+            r.ok({"site": b.where(wbi, wsi), "by": "retransmit phase tests record.acked"})
+            continue
+        if any(nb == wbi and ns > wsi for nb, ns in neutral):
+            r.ok({"site": b.where(wbi, wsi), "then": "payload emptied / needs_retransmit cleared in the same block"})
+            continue
+        nblocks = {nb for nb, _ in neutral}
+        reach = b.reachable([t for t, _ in b.succ_edges(wbi)], cut_blocks=nblocks)
+        inner = [blocks for h, blocks in b.loops() if wbi in blocks]
+        myhdr = {h for h, blocks in b.loops() if wbi in blocks}
+        if (reach & myhdr) or (reach & rets) or not neutral:
+            r.violate(fn, "ack:keeps-payload", b.where(wbi, wsi),
+                      "a record is marked acked but keeps its payload and its needs_retransmit flag, and the retransmit phase of "
+                      "transmit() does not test `acked`: a chunk marked for retransmission and then gap-acked goes on the wire again")
+        else:
+            r.ok({"site": b.where(wbi, wsi), "then": "payload = Bytes::new() / needs_retransmit = false before the sweep moves on"})
+    return r
+
+
 def run(ctx):
-    return [r13_1(ctx), r13_2(ctx), r13_3(ctx), r13_4(ctx), r13_5(ctx), r13_6(ctx)]
+    return [r13_1(ctx), r13_2(ctx), r13_3(ctx), r13_4(ctx), r13_5(ctx), r13_6(ctx), r13_7(ctx)]
